@@ -436,12 +436,6 @@ func (x *runner) probeXCrypto(g *gen) {
 	}
 	for _, s := range streams {
 		o := serveStream(x.fake, s, 20*time.Second, false)
-		if o.panicked && strings.Contains(o.panicMsg, "agent.parseConstraints") {
-			c.KnownFindingProbe("K4-xcrypto-constraints",
-				"an add-identity request whose lifetime constraint is cut short crashes the process inside the pinned x/crypto (ssh/agent parseConstraints, constraints[1:5] unchecked)",
-				map[string]interface{}{"stream_hex": hex.EncodeToString(s), "panic": strings.SplitN(o.panicMsg, "\n", 2)[0]})
-			return
-		}
 		if o.panicked || o.hung {
 			c.Native("ServeAgent crashed or hung on a cut add-identity request: "+strings.SplitN(o.panicMsg, "\n", 2)[0], map[string]interface{}{"stream_hex": hex.EncodeToString(s)})
 			return
@@ -671,7 +665,16 @@ func (x *runner) emit(class string, exact bool, ag yubiagent.YubiAgent, stream [
 	c := x.c
 	for _, f := range splitFrames(stream) {
 		if xcryptoConstraintPanic(x.m, f) {
-			c.Stat("streams skipped: contain the x/crypto parseConstraints crash class (probed as K4-xcrypto-constraints)")
+			// x/crypto's own server panics on this frame; ysshra's ServeAgent must end the connection with an
+			// error instead (fixed: 19af1af).  No reply is owed, so the stream is judged by the no-crash oracle only.
+			c.Stat("streams with a frame on which the x/crypto agent server itself panics (no-crash oracle only)")
+			o := serveStream(ag, stream, 20*time.Second, false)
+			if o.panicked || o.hung {
+				c.Native("ServeAgent crashed or hung on a malformed standard request ("+class+"): "+strings.SplitN(o.panicMsg, "\n", 2)[0],
+					map[string]interface{}{"stream_hex": short(stream)})
+			} else {
+				c.NativeCheck(1)
+			}
 			return observation{}
 		}
 	}
